@@ -281,19 +281,15 @@ def effOut (h : Handle) (out : Option Int) : Int := out.getD h.nextOut
 def effIn (h : Handle) (inn : Option Int) : Int := inn.getD h.nextIn
 
 /-- `Journaler.set_seq_num()`; the result carries the session object as mutated (the outbound
-number is assigned before the inbound assertion is evaluated).  When binding overflows after the
-UPDATE, the UPDATE stays visible on this connection (and uncommitted). -/
+number is assigned before the inbound assertion is evaluated, and both stay assigned when the SQL
+part raises).  UPDATE, DELETE, DELETE, commit run inside `try … except Exception: rollback; raise`:
+when binding any of the integers overflows, nothing of the call remains. -/
 def setSeqNum (j : Journal) (h : Handle) (out inn : Option Int) : Journal × Res :=
   if out.any (· ≤ 0) then (j, .set h (some .assertion))
   else if inn.any (· ≤ 0) then (j, .set { h with nextOut := effOut h out } (some .assertion))
-  else if !(fits (effIn h inn - 1) && fits (effOut h out - 1) && fits h.key) then
+  else if !(fits (effIn h inn - 1) && fits (effOut h out - 1) && fits h.key &&
+      fits (effIn h inn) && fits (effOut h out)) then
     (j, .set { h with nextOut := effOut h out, nextIn := effIn h inn } (some .overflow))
-  else if !fits (effIn h inn) then
-    (updBoth j (effIn h inn - 1) (effOut h out - 1) h.key,
-      .set { h with nextOut := effOut h out, nextIn := effIn h inn } (some .overflow))
-  else if !fits (effOut h out) then
-    (delFrom (updBoth j (effIn h inn - 1) (effOut h out - 1) h.key) h.key (effIn h inn) .inbound,
-      .set { h with nextOut := effOut h out, nextIn := effIn h inn } (some .overflow))
   else
     (delFrom (delFrom (updBoth j (effIn h inn - 1) (effOut h out - 1) h.key) h.key (effIn h inn) .inbound)
         h.key (effOut h out) .outbound,
